@@ -124,3 +124,12 @@ Proof.
     destruct (N.leb_spec (len * 8) PTRDIFF_MAX); [lia|]. cbn. exact Logic.I. }
   unfold post in Hp. destruct (api_run ev al ov wd lol ip n s) as [[[a|e] s']| |]; try contradiction. eauto.
 Qed.
+
+(* the failure branch of mem_get_page (a refused slot-table, Page or page-words allocation): the MemoryError leaves a
+   well-formed object - in particular every occupied slot and every cache entry still points at a live page *)
+Lemma C11_get_page_failure_wf_proof : forall al ov wa s e s', wf s -> wa < U64 ->
+  mem_get_page al ov wa s = Ok (Raise e, s') -> wf s'.
+Proof.
+  intros al ov wa s e s' H Hwa E. pose proof (mem_get_page_ok al ov wa s 0 _ _ (wf_I s H) Hwa) as Hc.
+  unfold post in Hc. rewrite E in Hc. apply Hc.
+Qed.
